@@ -124,7 +124,7 @@ let predict (c : string) (obs : string) : string * string * bool =
       let hv = (match tree with VMap kvs -> fields_of gen_hcl_root kvs | _ -> []) in
       let dh = decode_tree (marshal_by_tags gen_hcl_root hv) in
       let same a = if a = dy then "=" else a in
-      let pred = Printf.sprintf "y=%s yml== h=%s hl=%s e==" dy (same dh) (same dh) in
+      let pred = Printf.sprintf "y=%s yml== h=%s hl=%s e== ya==" dy (same dh) (same dh) in
       let parts = split_blank obs in
       let get p = (match List.find_opt (fun x -> String.length x > String.length p && String.sub x 0 (String.length p) = p) parts with
                    | Some x -> String.sub x (String.length p) (String.length x - String.length p) | None -> "?") in
@@ -134,6 +134,7 @@ let predict (c : string) (obs : string) : string * string * bool =
         else if get "h=" <> "=" then "BAD:hcl-differs-from-yaml"
         else if get "hl=" <> "=" then "BAD:hcl-with-locals-differs-from-yaml"
         else if get "e=" <> "=" then "BAD:edited-file-hcl-differs-from-yaml"
+        else if get "ya=" <> "=" then "BAD:yaml-with-anchors-and-flow-style-differs-from-yaml"
         else "ok" in
       (pred, v, get "y=" <> "err")
   | _ -> ("bad-case", "BAD:bad-case", false)
